@@ -58,7 +58,7 @@ ORDINARY = [(2018, 1, 1), (2018, 7, 4), (2019, 2, 28), (2019, 12, 31)]
 
 
 def bounds(tier, seed):
-    return {"max_sessions": 5 if tier == "quick" else 6, "max_pages": 5, "zones": ZONES, "instant_step_min": 30, "seconds": [0, 59]}
+    return {"max_sessions": 5 if tier == "quick" else 7, "max_pages": 5 if tier == "quick" else 6, "zones": ZONES, "instant_step_min": 30, "seconds": [0, 59]}
 
 
 def compositions(n, pmax):
